@@ -125,6 +125,19 @@ def mirrored_cases(draw):
     return case
 
 
+@st.composite
+def few_values_recursive_cases(draw):
+    """snp / rnp / ckk on 8-10 items drawn from 2-4 distinct values, 3-4 bins: as plain numbers equal items are indistinguishable, as named
+    items they are not - code that tells candidate sub-collections apart by their items behaves differently in the two presentations."""
+    seed = draw(st.integers(0, 2 ** 48))
+    alg = ["snp", "snp", "rnp", "rnp", "ckk"][seed % 5]
+    k = [3, 3, 4][(seed >> 3) % 3]
+    n = 8 + (seed >> 5) % 3
+    pool = S.splitmix(seed >> 8, 2 + (seed >> 7) % 3, 1, [15, 15, 40][(seed >> 10) % 3])
+    values = [pool[i] for i in S.splitmix(seed >> 12, n, 0, len(pool) - 1)]
+    return {"alg": alg, "values": values, "numbins": k, "pres": "list", "nseed": (seed >> 20) % 6, "profile": "few-distinct-values"}
+
+
 def valid(case):
     alg = case.get("alg")
     if alg in sut.PARTITIONERS:
@@ -149,6 +162,9 @@ def legs(tier):
             strategy=cases.large_heuristic_cases(["list"]), n_quick=500, n_thorough=10000, valid=cases.valid_large_case, floor=0.3),
         Leg("ties", evaluate, "hypothesis: inputs drawn from 2-3 distinct values (many ties); same oracle and rule",
             strategy=tie_cases(), n_quick=1200, n_thorough=20000, valid=valid, floor=0.3),
+        Leg("few-distinct-values", evaluate, "hypothesis: snp / rnp / ckk with 3-4 bins on 8-10 items drawn from 2-4 distinct values (plain numbers "
+            "are indistinguishable where named items are not); same oracle and rule", strategy=few_values_recursive_cases(), n_quick=1600,
+            n_thorough=32000, valid=valid, floor=0.3, shards=16),
         Leg("mirrored", evaluate, "hypothesis: inputs made of two value-identical halves (6-10 items) for the recursive / memoising algorithms "
             "(rnp, snp, ckk, cg, dp, bin completion ...) and some heuristics; same oracle and rule",
             strategy=mirrored_cases(), n_quick=900, n_thorough=18000, valid=valid, floor=0.3),
